@@ -30,6 +30,15 @@ type SpecEnv struct {
 	depth   int
 	parent  *SpecEnv // macros see the identifiers of the clause that uses them
 	astArgs map[string]ast.Expr
+	qdepth  int
+}
+
+func (e *SpecEnv) qdepthTotal() int {
+	n := 0
+	for x := e; x != nil; x = x.parent {
+		n += x.qdepth
+	}
+	return n
 }
 
 func (e *SpecEnv) lookupVar(name string) (SVal, bool) {
@@ -513,6 +522,9 @@ func (e *SpecEnv) index(a, i SVal, n ast.Node) SVal {
 		switch u := a.Ty.Underlying().(type) {
 		case *types.Slice:
 			es := sortOf(u.Elem())
+			if !i.T.open {
+				e.st.noteIndex(i.T)
+			}
 			arr := Select(e.st.getHeap(ArraySort(SInt, es)), Sel(a.T, 0))
 			return SVal{Select(arr, Add(Sel(a.T, 1), i.T)), u.Elem()}
 		case *types.Array:
@@ -582,9 +594,9 @@ func (e *SpecEnv) binary(n *ast.BinaryExpr) SVal {
 		case token.SUB:
 			return SVal{mk("-", SReal, at, bt), ty}
 		case token.MUL:
-			return SVal{mk("*", SReal, at, bt), ty}
+			return SVal{realMul(at, bt), ty}
 		case token.QUO:
-			return SVal{mk("/", SReal, at, bt), ty}
+			return SVal{realDiv(at, bt), ty}
 		}
 	}
 	if at.Sort == SString && n.Op == token.ADD {
@@ -672,7 +684,12 @@ func (e *SpecEnv) callExpr(n *ast.CallExpr) SVal {
 				}
 				bvSort, bvType = sortOf(T), T
 			}
-			bv := BVar(name+"$"+strconv.Itoa(bvCounter), bvSort)
+			// bound variables are named by nesting depth, so that evaluating the same clause
+			// twice yields the same term
+			qd := e.qdepthTotal()
+			e.qdepth++
+			defer func() { e.qdepth-- }()
+			bv := BVar(name+"$q"+strconv.Itoa(qd), bvSort)
 			saved, had := e.vars[name]
 			e.vars[name] = SVal{bv, bvType}
 			var r *Term
